@@ -45,8 +45,9 @@ type Peer struct {
 	Conn    *Conn
 	Ents    []*PEnt
 	ctr     uint64
-	AutoDD  bool // answer detailed-discovery reads automatically
-	AutoAck bool // acknowledge calls (subscribe to our node management) with a success result
+	Gone    []*PEnt // entities the peer has removed (they were announced once)
+	AutoDD  bool    // answer detailed-discovery reads automatically
+	AutoAck bool    // acknowledge calls (subscribe to our node management) with a success result
 	OnRecv  func(s *Sent)
 	Sends   int
 
@@ -81,6 +82,8 @@ func (p *Peer) RemoveEntity(addr []uint) {
 	for _, e := range p.Ents {
 		if !eqUints(e.Addr, addr) {
 			keep = append(keep, e)
+		} else {
+			p.Gone = append(p.Gone, e)
 		}
 	}
 	p.Ents = keep
